@@ -57,7 +57,7 @@ def chain_of(tree, root_param=1):
                 # element of an iterated collection
                 t = t[2][0]
                 continue
-            if t[0] == "call" and any(t[1].endswith(s) for s in ("::into_iter", "::iter", "::deref")) and t[2]:
+            if t[0] == "call" and any(t[1].endswith(s) for s in ("::into_iter", "::iter", "::deref", "Option::<T>::filter", "Option::<T>::as_ref")) and t[2]:
                 t = t[2][0]
                 continue
             break
